@@ -63,7 +63,9 @@ func installOrderHooks() {
 		if curOrders.Words == "native" {
 			return w
 		}
-		return applyOrder(curOrders.Words, curOrders.Seed, "words", w)
+		// reorder in place: returning a copy would hide a word list that aliases the caller's slice
+		copy(w, applyOrder(curOrders.Words, curOrders.Seed, "words", w))
+		return w
 	}
 	spg.VerifHooks.VisitOrder = func(keys []string) []string {
 		if curOrders.Visit == "native" || len(keys) > 600 {
